@@ -577,19 +577,19 @@ Qed.
     (The evaluation may add the plain variable nodes [v] and cache entries,
     so the state is an extension, not the same state.) *)
 Theorem to_expr_roundtrip_ast s u :
-  Inv s → valid s u → last_len s = None → max_nodes s = None →
+  Inv s → valid s u → last_len s = None →
   ∃ a, to_expr_ast (S (S (nvars s))) u s = (Ok a, s) ∧
        to_expr u s = (Ok (expr_text a), s) ∧
-       ∀ r s', eval_ast a s = (r, s') →
+       ∀ r s', max_nodes s = None → eval_ast a s = (r, s') →
          r = Ok u ∧ Inv s' ∧ extends s s' ∧ last_len s' = None ∧ max_nodes s' = None.
 Proof.
-  intros HI Hu Hoff Hmx.
+  intros HI Hu Hoff.
   destruct (to_expr_ast_spec (S (S (nvars s))) s u HI Hu) as (a&Ea&Hok&Hsem); [lia|].
   exists a. split; [done|]. split.
   { unfold to_expr. cbn [bind get]. unfold ensure. rewrite (proj2 (mem_valid s u) Hu).
     rewrite (bind_ok _ _ s tt s) by done.
     pose proof (to_expr_rec_text (S (S (nvars s))) u s) as H. rewrite Ea in H. by destruct H. }
-  intros r s' Hrun.
+  intros r s' Hmx Hrun.
   destruct (eval_ast_sem s a r s' HI Hoff Hmx Hok Hrun) as (x&->&HI'&He&Hoff'&Hmx'&Hx&HD).
   split; [|done]. f_equal.
   apply (canonical_names s' HI'); [done|by apply (valid_extends s s')|].
@@ -705,14 +705,14 @@ Qed.
 (** [add_expr(to_expr(u)) = u] on the lexemes of the text: lexing, parsing
     and evaluation under the decorator return the very reference [u] *)
 Theorem to_expr_roundtrip s u :
-  Inv s → valid s u → last_len s = None → max_nodes s = None →
+  Inv s → valid s u → last_len s = None →
   ∃ a, to_expr u s = (Ok (expr_text a), s) ∧
        lex (te_spellings a) = Some (te_tokens a) ∧
        parse code_prec (te_tokens a) = Some a ∧
-       ∀ r s', add_expr lex_alias reserved_words code_prec (te_spellings a) s = (r, s') →
+       ∀ r s', max_nodes s = None → add_expr lex_alias reserved_words code_prec (te_spellings a) s = (r, s') →
          r = Ok u ∧ Inv s' ∧ extends s s' ∧ last_len s' = None ∧ max_nodes s' = None.
 Proof.
-  intros HI Hu Hoff Hmx.
+  intros HI Hu Hoff.
   destruct (to_expr_ast_spec (S (S (nvars s))) s u HI Hu) as (a&Ea&Hok&Hsem); [lia|].
   pose proof (to_expr_rec_text (S (S (nvars s))) u s) as Ht. rewrite Ea in Ht.
   destruct Ht as [Hshape Ht].
@@ -722,7 +722,7 @@ Proof.
   pose proof (lex_te a Hshape) as Hlex.
   pose proof (parse_te_tokens a (te_shape_wf a Hshape)) as Hparse.
   split; [done|]. split; [done|].
-  intros r s' Hrun.
+  intros r s' Hmx Hrun.
   destruct (add_expr_sem _ _ _ _ _ a s r s' HI Hoff Hmx Hlex Hparse Hok Hrun)
     as (x&->&HI'&He&Hoff'&Hmx'&Hx&HD).
   split; [|done]. f_equal.
@@ -888,12 +888,12 @@ Qed.
 
 (** [add_expr(to_expr(u))] on the text itself *)
 Theorem to_expr_roundtrip_text s u :
-  Inv s → valid s u → last_len s = None → max_nodes s = None →
+  Inv s → valid s u → last_len s = None →
   ∃ txt, to_expr u s = (Ok txt, s) ∧
-    ∀ r s', add_expr lex_alias reserved_words code_prec (split_formula txt) s = (r, s') →
+    ∀ r s', max_nodes s = None → add_expr lex_alias reserved_words code_prec (split_formula txt) s = (r, s') →
       r = Ok u ∧ Inv s' ∧ extends s s' ∧ last_len s' = None ∧ max_nodes s' = None.
 Proof.
-  intros HI Hu Hoff Hmx.
+  intros HI Hu Hoff.
   destruct (to_expr_ast_spec (S (S (nvars s))) s u HI Hu) as (a&Ea&Hok&Hsem); [lia|].
   pose proof (to_expr_rec_text (S (S (nvars s))) u s) as Ht. rewrite Ea in Ht.
   destruct Ht as [Hshape Ht].
@@ -903,7 +903,7 @@ Proof.
   rewrite (split_formula_te a Hshape).
   pose proof (lex_te a Hshape) as Hlex.
   pose proof (parse_te_tokens a (te_shape_wf a Hshape)) as Hparse.
-  intros r s' Hrun.
+  intros r s' Hmx Hrun.
   destruct (add_expr_sem _ _ _ _ _ a s r s' HI Hoff Hmx Hlex Hparse Hok Hrun)
     as (x&->&HI'&He&Hoff'&Hmx'&Hx&HD).
   split; [|done]. f_equal.
